@@ -86,6 +86,15 @@ func (e *Engine) installIntrinsics(pkgPath string) {
 		e.frozen = e.nextObj
 		return nil, true
 	}
+	e.intercept[p+"vrfConcurrently"] = func(e *Engine, fr *Frame, c *Ctx, a []Value, _ *ssa.CallCommon) (Value, bool) {
+		fv := a[0].(FuncV)
+		_, nc := e.call(fr, c, fv.Fn, nil, fv.Bind)
+		if nc == nil {
+			return nil, false
+		}
+		c.S = nc.S
+		return nil, true
+	}
 	e.intercept[p+"vrfThaw"] = func(e *Engine, fr *Frame, c *Ctx, a []Value, _ *ssa.CallCommon) (Value, bool) {
 		e.frozen = 0
 		return nil, true
